@@ -149,7 +149,7 @@ def suite_algo_switch(ctx):
         for step in range(rng.randrange(2, 6)):
             sig = rng.choice(['s', 'sl', 'sp', 'slp', 'obj'])
             tag = bytes([0x41 + step])
-            params = rng.choice([None, b'\x01', {'k': step}])
+            params = rng.choice([None, b'\x01', {'k': step}, 0, b'', False, {}])      # falsy parameters are parameters too
             algo = mk(sig, tag)
             if rng.random() < 0.5:
                 client.config['security_algo'] = algo
